@@ -516,8 +516,10 @@ inline std::string shape_check(Method m, const Bytes &h) {
       if (!all_in(h.substr(3, 11), A64)) return fail("scrypt: parameter field");
       size_t p = h.rfind('$');
       if (p < 14) return fail("scrypt: missing '$' before digest");
+      // the implementation documents that a '$' inside the salt may be followed by arbitrary (passwd-safe) text,
+      // which is then carried in the result: only passwd-safety is required of the salt region
       for (size_t i = 14; i < p; i++)
-        if (!is_a64((unsigned char)h[i]) && h[i] != '$') return fail("scrypt: salt alphabet");
+        if (!passwd_safe_char((unsigned char)h[i])) return fail("scrypt: salt alphabet");
       Bytes d = h.substr(p + 1);
       if (d.size() != 43 || !all_in(d, A64)) return fail("scrypt: digest not 43 base-64 chars");
       return "";
